@@ -589,6 +589,28 @@ void uop(string *a) {
   case "umclone": // umclone <file> <tag> <drop>: the master clones (drop=1: with its euid set to 0 first)
     master()->m_clone(a[1], a[2], to_int(a[3]));
     break;
+  case "uvb":     // uvb <answer>: what the master's valid_bind() says from now on (1, 0, E)
+    master()->set_vb(a[1]);
+    break;
+  case "ubind":   // ubind <owner> seteuid <name|0|me> | ubind <owner> export <target>: an efun pointer made here, bound to <owner>, evaluated
+    {
+      mixed e, r; function f; object t2;
+      o = ob_of(a[1]);
+      if (!o) break;
+      if (a[2] == "export") { t2 = ob_of(a[3]); if (!t2) break; }
+      else if (a[3] == "me") a[3] = getuid(this_object());
+      rec("UBIND " + me() + " " + a[1] + " same=" + (o == this_object() ? 1 : 0));
+      if (a[2] == "export") e = catch(f = bind((: export_uid, t2 :), o));
+      else if (a[3] == "0") e = catch(f = bind((: seteuid, 0 :), o));
+      else e = catch(f = bind((: seteuid, a[3] :), o));
+      rec("UBINDDONE " + me() + " " + a[1] + " bound=" + (e ? 0 : 1));
+      if (e) break;
+      e = catch(r = evaluate(f));
+      // what the bound pointer did, it did as its owner: the records are those of the owner's own call
+      if (a[2] == "export") rec("UEXPORT " + a[1] + " " + a[3] + " ret=" + r + " err=" + (e ? 1 : 0));
+      else rec("USETEUID " + a[1] + " " + a[3] + " ret=" + r + " err=" + (e ? 1 : 0));
+    }
+    break;
   }
 }
 
@@ -859,7 +881,7 @@ void do_op(string op) {
   case "xco": case "xaco": case "xsco": case "xsaco": case "xreload": case "comp": case "coinfo": case "reload":
     xop(a);
     break;
-  case "uclone": case "uload": case "useteuid": case "uexport": case "uids": case "ucall": case "ucf": case "uvs": case "umclone": case "uvo":
+  case "uclone": case "uload": case "useteuid": case "uexport": case "uids": case "ucall": case "ucf": case "uvs": case "umclone": case "uvo": case "uvb": case "ubind":
     uop(a);
     break;
   case "setcs":   // setcs <script>: the next vobj created runs this script inside create()
